@@ -496,6 +496,11 @@ def load_mechanism_file(name):
     return mod
 
 
+def fake_sigma(eps, delta):
+    """float stand-in for autodp's calibration (classical Gaussian mechanism): only used by float replays"""
+    return math.sqrt(2 * math.log(1.25 / float(delta))) / float(eps)
+
+
 def install_fakes():
     """autodp / hdmm are not installed on this image: minimal stand-ins (only their *shape* is used)."""
     if "autodp" not in sys.modules:
@@ -504,7 +509,10 @@ def install_fakes():
 
         def ana_gaussian_mech(eps, delta, **kw):
             ST.events.append(("ana_gaussian_mech", eps, delta))
-            s = SR.var("sigma_ana!%d" % (len(ST.events)), sg="p")
+            if isinstance(eps, Sym) or isinstance(delta, Sym):
+                s = SR.var("sigma_ana!%d" % (len(ST.events)), sg="p")
+            else:
+                s = fake_sigma(eps, delta)
             return {"sigma": s}
         pc.ana_gaussian_mech = ana_gaussian_mech
         autodp.privacy_calibrator = pc
